@@ -31,9 +31,10 @@ REPR = {
     "run": {"str": ["'true'"], "wrongtype": ["5", "['true']", "None", "True"]},
     "par": {"bool": ["True", "False"], "wrongtype": ["1", "'yes'", "None", "0"]},
     "args": {"primitives": ["[1, 's', 2.5, True]", "[]", "['only']"], "notlist": ["'abc'", "(1, 2)", "{'a': 1}", "5"],
-             "nonprimitive": ["[[1]]", "[None]", "[{'a': 1}]", "[1, (2,)]"]},
+             "nonprimitive": ["[[1]]", "[None]", "[{'a': 1}]", "[1, (2,)]", "[__import__('fractions').Fraction(1, 3)]",
+                              "[__import__('decimal').Decimal('1.5')]", "[b'bytes']", "[1+2j]"]},
     "opts": {"primitives": ["{'k': 1, 's': 'v', 'b': False}", "{}", "{'f': 1.5}"], "notdict": ["[('k', 1)]", "'k=1'", "5"],
-             "nonstringkey": ["{1: 'a'}", "{None: 1}", "{('a',): 1}"], "nonprimitive": ["{'k': [1]}", "{'k': None}", "{'k': {'a': 1}}"]},
+             "nonstringkey": ["{1: 'a'}", "{None: 1}", "{('a',): 1}"], "nonprimitive": ["{'k': [1]}", "{'k': None}", "{'k': {'a': 1}}", "{'k': __import__('fractions').Fraction(1, 3)}", "{'k': b'x'}"]},
     "deps": {"valid": ["['//:x', '//a:x2']", "['//a:x']", "['//a/:x2']"], "relative": ["[':x']", "[':x', '//a:x2']"],
              "notlist": ["'//:x'", "('//:x',)", "{'//:x'}"], "nonstr": ["[5]", "[None]", "['//:x', 7]"],
              "malformed": ["['x']", "['//a:b:c']", "['//a b:x']", "['']", "['//a:']", "[':']", "['a:x']", "['//a:\\u212a']", "['//\\u017f:x']",
